@@ -294,6 +294,8 @@ def interegular_to_wfsa(pattern, charset="core", name=lambda x: x):
                 if j in rejection_states:
                     continue
                 for A in expand_alphabet(a):
+                    if len(A) != 1:
+                        continue  # excluded (with a warning) when K was computed
                     m.add_arc(name(i), A, name(j), 1 / K)
 
         return m
